@@ -100,6 +100,20 @@ CHECKS = {
         "alphabet/size bounds; frames with 0 gt instances may raise (nothing to conserve)",
         "DESIGN.md §3 C15",
     ),
+    "C12": (
+        "model_checking",
+        "exhaustive enumeration of all batches (ordered selections with repetition, size<=3/4) over a 4-frame alphabet x model type x max_instances x refinement, differential against the alone-run",
+        "Every batch up to the size bound built from frames with 0..3 animals, two original sizes (two eff_scales) and two video indices goes through the real _predict_generator batching and the real inference models (ideal networks); each frame's records must equal its alone-run, carry its own frame/video index, empty frames yield nothing, and max_instances keeps the k best (top-down in the model, bottom-up in the real label assembly). Complete within the bound.",
+        "ideal networks; frame buffer pre-filled (reader side is C13); B<=3 quick / 4 thorough",
+        "DESIGN.md §3 C12",
+    ),
+    "C14": (
+        "model_checking",
+        "exhaustive enumeration of the validity-predicate configuration grid (build + forward of the real Model) and of all eval-mode call histories up to depth 3/4 with a fresh-copy differential oracle",
+        "Every configuration of the enumerated grid that satisfies the documented validity predicate is built and run on inputs that are multiples of the max stride: one output per head with the contracted channels and spatial size, equal to the shape the target generators produce. Every call history up to the depth bound over an input alphabet (sizes, batch of two) is executed on representatives of each backbone family; the last output must equal a fresh copy's output for that frame alone (determinism, history and batch-mate independence).",
+        "grid values and depth are the bound; random weights seeded by VERIF_SEED; miniature widths; pretrained weights unavailable offline",
+        "DESIGN.md §3 C14",
+    ),
 }
 
 NOT_YET = {}
